@@ -23,6 +23,10 @@ type c08Case struct {
 	Patch  []byte `json:"patch"`
 	Target string `json:"target"`
 	CLI    bool   `json:"cli"`
+	// CLIName: the name of the target file in the CLI run ("" = t.go). A
+	// name of 249 bytes leaves no room for the name of a temporary file
+	// next to it: the rewrite cannot be written, which has to be reported.
+	CLIName string `json:"cli_name,omitempty"`
 	// TargetIndex selects the target of a native-fuzzing crasher (the fuzz
 	// target takes an index, not the text).
 	TargetIndex int `json:"target_index,omitempty"`
@@ -114,10 +118,14 @@ func c08CLI(cs *c08Case) (sig, msg string) {
 	if err := os.WriteFile(filepath.Join(dir, "p.patch"), cs.Patch, 0o644); err != nil {
 		return "", ""
 	}
-	if err := os.WriteFile(filepath.Join(dir, "t.go"), []byte(cs.Target), 0o644); err != nil {
+	name := "t.go"
+	if cs.CLIName != "" {
+		name = cs.CLIName
+	}
+	if err := os.WriteFile(filepath.Join(dir, name), []byte(cs.Target), 0o644); err != nil {
 		return "", ""
 	}
-	r := run.CLI(dir, nil, "-p", "p.patch", "t.go")
+	r := run.CLI(dir, nil, "-p", "p.patch", name)
 	switch {
 	case r.StartErr != "":
 		return "", "" // harness problem, not judged
@@ -444,7 +452,47 @@ func TestC08(t *testing.T) {
 			// nested code around a site; a pattern with many elisions on a long
 			// list of candidates. The run must still finish (hang oracle).
 			cs.Mode = "stress"
-			if rapid.Bool().Draw(rt, "stressKind") {
+			if rapid.IntRange(0, 2).Draw(rt, "stressImports") == 0 {
+				// One path, listed k times by the change under metavariable
+				// names and imported n times by the file: there are up to
+				// n^k ways to pair them, and the code may occur under none.
+				k := rapid.IntRange(1, 9).Draw(rt, "patchImports")
+				n := rapid.IntRange(1, 9).Draw(rt, "fileImports")
+				used := rapid.IntRange(0, k).Draw(rt, "usedInCode")
+				var pb, fb strings.Builder
+				pb.WriteString("@@\n")
+				for i := 0; i < k; i++ {
+					fmt.Fprintf(&pb, "var m%d identifier\n", i)
+				}
+				pb.WriteString("@@\n")
+				pfx := rapid.SampledFrom([]string{" ", "-"}).Draw(rt, "importLine")
+				for i := 0; i < k; i++ {
+					fmt.Fprintf(&pb, "%simport m%d \"fmt\"\n", pfx, i)
+				}
+				pb.WriteString("\n-nomatch(1")
+				for i := 0; i < used; i++ {
+					fmt.Fprintf(&pb, ", m%d.X", i)
+				}
+				pb.WriteString(")\n+other(1)\n")
+				fb.WriteString("package p\n\nimport (\n")
+				for i := 0; i < n; i++ {
+					fmt.Fprintf(&fb, "\tf%d \"fmt\"\n", i)
+				}
+				fb.WriteString(")\n\nfunc f() {\n")
+				for i := 0; i < n; i++ {
+					fmt.Fprintf(&fb, "\tf%d.Println()\n", i)
+				}
+				if rapid.Bool().Draw(rt, "occurs") {
+					fb.WriteString("\tnomatch(1")
+					for i := 0; i < used; i++ {
+						fmt.Fprintf(&fb, ", f%d.X", rapid.IntRange(0, n).Draw(rt, fmt.Sprintf("qual%d", i)))
+					}
+					fb.WriteString(")\n")
+				}
+				fb.WriteString("}\n")
+				cs.Patch, cs.Target = []byte(pb.String()), fb.String()
+				c.Class("stress:import-combinations")
+			} else if rapid.Bool().Draw(rt, "stressKind") {
 				n := rapid.IntRange(8, 26).Draw(rt, "depth")
 				open := rapid.SampledFrom([]string{"if true {", "for {", "{", "switch {\ndefault:", "func() {"}).Draw(rt, "nest")
 				cl := map[string]string{"func() {": "}()"}[open]
@@ -582,6 +630,10 @@ func TestC08(t *testing.T) {
 			c.Class("shape:" + it.Shape)
 		}
 		cs.CLI = cliEvery > 0 && nGen%cliEvery == 0
+		if cs.CLI && (nGen/cliEvery)%3 == 0 {
+			cs.CLIName = strings.Repeat("n", 246) + ".go"
+			c.Class("cli:target-name-of-249-bytes")
+		}
 		sig, msg, stage := evalC08(cs)
 		record(cs, stage)
 		if sig != "" {
